@@ -679,6 +679,7 @@ CONSTANTS
   UseCAS = %s
   ReleaseClears = %s
   PutOnReturn = %s
+  FailPuts = 1
 INVARIANT Safety
 CHECK_DEADLOCK FALSE
 """
@@ -691,7 +692,7 @@ def c17(ctx):
     ctx.assumptions += ["a garbling is released only by the goroutine that made it (concurrent Release of ONE handle is outside the property)",
                         "freedom from data races is decided by the Go race detector on the recorded stress runs, not by TLC"]
     # (M) all interleavings of Load / CAS / Get / fill / Release / runtime drops
-    confs = [("{1, 2}", 3), ("{1, 2, 3}", 2)] + ([("{1, 2}", 5)] if thorough else [])
+    confs = [("{1, 2}", 3)] + ([("{1, 2, 3}", 2), ("{1, 2}", 4)] if thorough else [])
     for procs, ops in confs:
         ctx.tlc_expect_ok("Pool", "Pool_mc.cfg", name="pool-mc-%d-%d" % (len(procs), ops), timeout=3400, heap="16g",
                           cfg_text=POOL_CFG % (procs, ops, "TRUE", "TRUE", "FALSE"))
@@ -702,6 +703,11 @@ def c17(ctx):
         guards[nm] = r["status"]
         if r["status"] != "invariant":
             raise Broken("Pool.tla does not reject the deviation %s (%s)" % (nm, r["status"]))
+    r = ctx.tlc("Pool", "Pool_mc.cfg", name="pool-guard-error-path-puts-twice", timeout=1500,
+                cfg_text=(POOL_CFG % ("{1, 2}", 3, "TRUE", "TRUE", "FALSE")).replace("FailPuts = 1", "FailPuts = 2"))
+    guards["error-path-puts-twice"] = r["status"]
+    if r["status"] != "invariant":
+        raise Broken("Pool.tla does not reject a double Put on Garble's error path (%s)" % r["status"])
     ctx.cov["spec_rejects_deviations"] = guards
     # (G) forced lazy-creation race through the gate
     cres = os.path.join(ctx.tmp, "c17cas.ndjson")
@@ -1666,15 +1672,19 @@ def c08(ctx):
               (["arith", "funcs"], ["none"], ["default", "gmw"], 6, 5),
               (["libs"], ["none"], ["default", "prune"], 5, 4),
               # several imported packages with package-level variables (their initialisers are emitted per package)
-              (["imports"], ["none"], ["default", "prune"], 5, 3)]
+              (["imports"], ["none"], ["default", "prune"], 5, 3),
+              # a compilation that fails half way, then the same Compiler / Params used again (one process)
+              (["libs", "failing"], ["none"], ["default"], 6, 6, "{1}")]
     if thorough:
-        combos = [(p, s, v, n + 2, k * 4) for (p, s, v, n, k) in combos]
+        combos = [tuple([c[0], c[1], c[2], c[3] + 2, c[4] * 4] + list(c[5:])) for c in combos]
         combos += [(["hmac"], ["none"], ["default"], 5, 4), (["aes"], ["none"], ["default", "gmw"], 4, 3),
                    (["libs", "funcs", "mul"], ["s16", "none"], ["default", "gmw", "prune"], 8, 12)]
     hists = []
-    for ci, (progs, sizes, vals, nops, num) in enumerate(combos):
+    for ci, combo in enumerate(combos):
+        progs, sizes, vals, nops, num = combo[:5]
+        procs = combo[5] if len(combo) > 5 else "{1, 2, 3}"
         g = ctx.tlc("DetermGen", "Determ_gen.cfg", mode="sim", workers=1, sim="num=%d" % num, depth=nops + 3, name="determ-gen-%d" % ci, timeout=3000,
-                    cfg_text=DETERM_CFG % ("GSpec", tla_set(progs), tla_set(sizes), tla_set(vals), nops, "{1, 2, 3}", "FALSE", "FALSE", "FALSE",
+                    cfg_text=DETERM_CFG % ("GSpec", tla_set(progs), tla_set(sizes), tla_set(vals), nops, procs, "FALSE", "FALSE", "FALSE",
                                            "CONSTRAINT Emit"))
         if g["status"] != "ok" or not g["cases"]:
             raise Broken("DetermGen failed: %s\n%s" % (g["status"], g["out"][-2000:]))
@@ -1690,14 +1700,16 @@ def c08(ctx):
     events = read_ndjson(tf)
     if not events:
         raise Broken("no compilation was recorded")
-    errs = [e for e in events if e["err"]]
+    errs = [e for e in events if e["err"] and not e["key"].startswith("failing/")]
+    if [e for e in events if e["key"].startswith("failing/") and not e["err"]]:
+        raise Broken("the program `failing` compiles (dead driver)")
     ctx.cov["compilations"] = len(events)
     ctx.cov["compile_errors"] = len(errs)
     if len(errs) * 2 > len(events):
         raise Broken("most compilations fail: %s" % errs[0]["err"])
     for prog in sorted(set(e["key"].split("/")[0] for e in events)):
         mine = [e for e in events if e["key"].split("/")[0] == prog]
-        if all(e["err"] for e in mine):
+        if prog != "failing" and all(e["err"] for e in mine):
             raise Broken("program %s never compiles (dead driver): %s" % (prog, mine[0]["err"]))
     # (T) one key, one circuit, one SSA listing - decided by DetermTrace.tla over all histories
     r = ctx.tlc("DetermTrace", "DetermTrace.cfg", mode="trace", name="determtrace", files=[tf], timeout=3000)
